@@ -5,6 +5,7 @@ import (
 	"database/sql"
 	"errors"
 	"io"
+	"log/slog"
 	"sync"
 	"sync/atomic"
 
@@ -118,9 +119,13 @@ func (t *TxController) Commit(ctx context.Context) error {
 		return err
 	}
 	t.finalized = true
+	// The transaction is durable from here on. A failing after-commit hook
+	// (backup cleanup, cache maintenance, worker wake-up) must neither report
+	// the committed operation as failed nor keep the remaining hooks from
+	// running.
 	for _, fn := range t.onAfterCommit {
 		if hookErr := fn(ctx); hookErr != nil {
-			return hookErr
+			slog.WarnContext(ctx, "After-commit hook failed; the transaction is already committed", "error", hookErr)
 		}
 	}
 	return nil
